@@ -10,7 +10,7 @@ EXTENDS Trees
 
 RvIsWrapper(s) ==
   /\ s.t = "stk" /\ ~s.paren /\ s.k # "NOT" /\ Len(s.e) = 1
-  /\ LET c == s.e[1] IN (c.t = "stk" /\ ~c.paren) \/ c.t = "cnd"
+  /\ LET c == s.e[1] IN c.t \in {"stk", "cnd"} /\ ~c.paren      \* a parenthetical child -- Stack or Condition -- protects its wrapper
 
 \* all trees one allowed unwrap away from n (n is never replaced itself)
 RECURSIVE RvUnwrap1(_)
